@@ -296,6 +296,14 @@ def check_C17(chk, tier, seed):
             chk.violation("a Time value is decoded / encoded differently when the process's local time zone is not UTC",
                           dict(case=c, env="TZ=EST5EDT", impl=short(im), under_utc=short(ref[c])))
             break
+    # the first values a process handles, on a thread with a small stack (160 KiB)
+    o = core.run_sharded([eng.harness, "codec"], [], ["SMALLSTACK"], shards=1, timeout=300)[0]
+    chk.case("SMALLSTACK", True)
+    chk.validated += 1
+    chk.count("small-stack-thread")
+    if o != "OK":
+        chk.violation("decoding / encoding a few fixed-size values as the first thing in a process, on a thread with a 160 KiB stack, did not work: " + short(o, 200),
+                      dict(case="SMALLSTACK", impl=short(o)))
     # eight threads at once, each taking every four-octet type through 70 000 patterns a day and a bit apart, in the dev profile
     # (overflow checks on): what a value decodes to depends on its octets - not on what other threads decode at the same moment,
     # not on how many values the thread has decoded before (2^16 and beyond)
